@@ -365,16 +365,16 @@ impl Report {
             wall,
             unknown.len()
         );
-        if let Some(h) = self.agg.extra.get("harness_error") {
-            println!("HARNESS-ERROR (inconclusive): {h}");
-            return 2;
-        }
         if !unknown.is_empty() {
             for (f, path) in &unknown {
                 println!("  {}", f.message.replace('\n', "\n    "));
                 println!("VIOLATION property={} replay={}", self.prop, path);
             }
             return 1;
+        }
+        if let Some(h) = self.agg.extra.get("harness_error") {
+            println!("HARNESS-ERROR (inconclusive): {h}");
+            return 2;
         }
         if (self.agg.nontrivial.len() as u64) < self.min_nontrivial {
             println!("INCONCLUSIVE: only {} distinct non-trivial cases (generator problem)", self.agg.nontrivial.len());
